@@ -152,6 +152,7 @@ func NewExec(prog *ssa.Program, cfg *Config) (*Exec, error) {
 		return nil, err
 	}
 	ex.solver = s
+	ex.allocLimit = cfg.AllocLimit
 	return ex, nil
 }
 
@@ -239,7 +240,11 @@ func (ex *Exec) runInit(pkg *ssa.Package) {
 		}()
 		ex.depth = 0
 		ex.steps = 0
+		t0 := time.Now()
 		ex.callInit(initFn)
+		if ex.cfg.Debug && time.Since(t0) > 200*time.Millisecond {
+			fmt.Printf("  init %s: %v, %d steps\n", pkg.Pkg.Path(), time.Since(t0), ex.steps)
+		}
 	}()
 }
 
@@ -615,16 +620,18 @@ func loopHeader(fn *ssa.Function) *ssa.BasicBlock {
 func (ex *Exec) atCutHeader(fr *frame, pi int, phis []ssa.Instruction) {
 	cs := fr.cutState
 	in := make([]Value, len(phis))
+	names := make([]Value, len(phis))
 	for i, p := range phis {
 		ph := p.(*ssa.Phi)
 		in[i] = Iface{T: ph.Type(), V: fr.get(ph.Edges[pi])}
+		names[i] = Str{S: ph.Comment}
 	}
 	phase := uint64(0)
 	if cs.arrivals > 0 {
 		phase = 1
 	}
 	cs.arrivals++
-	out := ex.callSSA(fr, cs.hook, []Value{sym.Const(64, phase), in}, nil, phis[0])
+	out := ex.callSSA(fr, cs.hook, []Value{sym.Const(64, phase), names, in}, nil, phis[0])
 	if phase == 1 {
 		panic(pathEnd{endDone, "loop cut: back edge checked"})
 	}
